@@ -14,8 +14,8 @@ use crate::{
 pub const DEF: PropDef = PropDef {
     id: "C03",
     groups,
-    rule: "(n in {unset, 0..=300} biased to {0,1,T-1,T,T+1,100}, s in 0..=50, T in 1..=9, bench/test, entry point, 4 representative shapes, max_time in {unset, 0}), no other time limit, cheap constant clock; options reach the loop through BenchOptions (in-process), the Divan builder and the CLI/environment (twin routes); \
-           non-trivial = n mod T != 0, or n < T, or a zero among (n, s, max_time), or default n; distinct by (n, s, T, mode, entry, route).",
+    rule: "(n in {unset, 0..=300} biased to {0,1,T-1,T,T+1,100}, s in 0..=50, T in 1..=9, bench/test, entry point, 4 representative shapes, max_time in {unset, 0}), no other time limit, cheap constant clock; options reach the loop through BenchOptions (in-process); twin_routes: generated crates (options on benchmarks, groups and the builder) run through main() configured for bench / test, run_benches() on a runner configured for test and test_benches() on a runner configured for bench, calls per invocation = s*T*ceil(n/T) (bench) or T (test) from the reference option resolution; builder_then_cli: child process, builder calls followed by config_with_args() over real flags and DIVAN_* variables (flag > variable > builder per field); \
+           non-trivial = n mod T != 0, or n < T, or a zero among (n, s, max_time), or default n (loop); options set at two different levels, or an API route whose requested action differs from the configured one (twin_routes); a builder value present (builder_then_cli); distinct by serialized case.",
     assumptions: &[
         "calls are counted by the instrumented benchmarked closure per logical thread (0 = caller, k = pool thread divan-k)",
         "T > 1 runs on real threads; the per-thread call counts do not depend on the interleaving",
@@ -162,9 +162,153 @@ pub fn case() -> impl Strategy<Value = LoopCase> {
     })
 }
 
+// ---------------------------------------------------------------------------
+// Twin routes: the same counts when (n, s, T) reach the loop through
+// attributes, groups, the Divan builder, the command line and the environment,
+// and when the run is requested through `main()`, `run_benches()` or
+// `test_benches()`.
+
+use super::{
+    c15,
+    twin::{self, Item, OptSpec, RunCfg, TwinSpec},
+    twingen,
+};
+use serde::{Deserialize, Serialize};
+
+#[derive(Clone, Debug, Serialize, Deserialize)]
+pub struct RouteCase {
+    pub spec: TwinSpec,
+    /// Runner-level options set through builder calls.
+    pub runner: OptSpec,
+    /// 0 `main()` configured for bench, 1 `main()` configured for test,
+    /// 2 `run_benches()` on a runner configured for test,
+    /// 3 `test_benches()` on a runner configured for bench.
+    pub route: u8,
+}
+
+fn keep_short(spec: &mut TwinSpec) {
+    for item in spec.items.iter_mut() {
+        let m = match item {
+            Item::Bench(b) => &mut b.meta,
+            Item::Group(m) => m,
+        };
+        if let Some(o) = &mut m.options {
+            o.min_time_ns = o.min_time_ns.map(|v| v.min(1000));
+        }
+    }
+}
+
+pub fn check_route(c: &RouteCase) -> Verdict {
+    let (action, bench_mode) = match c.route {
+        0 => ("bench", true),
+        1 => ("test", false),
+        2 => ("bench-api", true),
+        _ => ("test-api", false),
+    };
+    let cfg = RunCfg { action: action.into(), options: c.runner.clone(), ignored: 0, ..RunCfg::default() };
+    let run = match twin::run_in_process(&c.spec, &cfg) {
+        Ok(r) => r,
+        Err(e) => return Verdict::Inconclusive(e),
+    };
+    if let Some(p) = &run.panic {
+        return Verdict::fail("runner-panic", format!("{action}: the runner panicked: {p}"));
+    }
+    // What the caller asked for decides the mode of every benchmark.
+    if let Some(inv) = run.invocations.iter().find(|i| i.is_bench != bench_mode || i.is_test == bench_mode) {
+        return Verdict::fail(
+            "route-mode",
+            format!("{action}: benchmark uid {} was run with is_bench={} is_test={} ({} calls)", inv.uid, inv.is_bench, inv.is_test, inv.calls),
+        );
+    }
+    match c15::judge(&c.spec, &c.runner, 0, bench_mode, &run) {
+        Ok(n) => {
+            classify(format!("route={action}"));
+            Verdict::pass(n || c.route >= 2)
+        }
+        Err((sig, msg)) => Verdict::fail(format!("route:{sig}"), format!("[{action}] {msg}")),
+    }
+}
+
+fn route_case() -> impl Strategy<Value = RouteCase> {
+    (twingen::spec_with(0.35), c15::runner_opts(), 0u8..=3).prop_map(|(mut spec, runner, route)| {
+        keep_short(&mut spec);
+        RouteCase { spec, runner, route }
+    })
+}
+
+#[derive(Clone, Debug, Serialize, Deserialize)]
+pub struct BuilderCliCase {
+    pub spec: TwinSpec,
+    /// Set through builder calls before `config_with_args()`.
+    pub builder: OptSpec,
+    pub flags: OptSpec,
+    pub env: OptSpec,
+    pub bench_mode: bool,
+}
+
+/// Per field: flag, else environment, else builder.
+fn merge(flags: &OptSpec, env: &OptSpec, builder: &OptSpec) -> OptSpec {
+    let mut r = flags.clone();
+    // An empty list cannot be passed as a flag or a variable (it is not
+    // passed at all); the builder can set one.
+    r.threads = r.threads.filter(|t| !t.is_empty());
+    for (lower, is_env) in [(env, true), (builder, false)] {
+        r.sample_count = r.sample_count.or(lower.sample_count);
+        r.sample_size = r.sample_size.or(lower.sample_size);
+        r.threads = r.threads.clone().or(lower.threads.clone().filter(|t| !is_env || !t.is_empty()));
+        for k in 0..4 {
+            r.counters[k] = r.counters[k].or(lower.counters[k]);
+        }
+        r.min_time_ns = r.min_time_ns.or(lower.min_time_ns);
+        r.max_time_ns = r.max_time_ns.or(lower.max_time_ns);
+        r.skip_ext_time = r.skip_ext_time.or(lower.skip_ext_time);
+    }
+    r.ignore = None;
+    r
+}
+
+pub fn check_builder_cli(c: &BuilderCliCase) -> Verdict {
+    let runner = merge(&c.flags, &c.env, &c.builder);
+    let mut args: Vec<String> = vec![if c.bench_mode { "--bench".into() } else { "--test".into() }, "--timer".into(), "tsc".into()];
+    args.extend(c15::cli_args(&c.flags));
+    let mut env = c15::cli_env(&c.env);
+    env.push(("VCHECK_TWIN_BUILDER".into(), serde_json::to_string(&c.builder).unwrap()));
+    let tag = format!("c03-{}", std::process::id());
+    let (run, code, stderr) = match twin::run_child(&c.spec, &args, &env, &tag) {
+        Ok(r) => r,
+        Err(e) => return Verdict::Inconclusive(e),
+    };
+    vensure!(code == 0, "cli-exit", "exit code {code} for {args:?} {env:?}: {stderr}");
+    match c15::judge(&c.spec, &runner, 0, c.bench_mode, &run) {
+        Ok(n) => {
+            classify(format!("builder={} flags={} env={}", !c.builder.is_empty(), !c.flags.is_empty(), !c.env.is_empty()));
+            Verdict::pass(n && !c.builder.is_empty())
+        }
+        Err((sig, msg)) => Verdict::fail(format!("builder-cli:{sig}"), format!("{msg}\nbuilder {:?}\nargs {args:?} env {env:?}", c.builder)),
+    }
+}
+
+fn builder_cli_case() -> impl Strategy<Value = BuilderCliCase> {
+    let opts = |p: f64| {
+        c15::runner_opts().prop_map(move |mut o| {
+            let _ = p;
+            // Keep bench-mode runs short and the call count decidable.
+            o.min_time_ns = None;
+            o.max_time_ns = o.max_time_ns.map(|v| if v % 2 == 0 { 0 } else { 2_000_000_000 });
+            o
+        })
+    };
+    (twingen::spec_with(0.3), opts(0.5), opts(0.3), opts(0.3), any::<bool>()).prop_map(|(mut spec, builder, flags, env, bench_mode)| {
+        keep_short(&mut spec);
+        BuilderCliCase { spec, builder, flags, env, bench_mode }
+    })
+}
+
 fn groups(g: &mut Groups) {
     PAINT.store(true, std::sync::atomic::Ordering::SeqCst);
-    g.prop("loop", 16_000, 400_000, case(), check_case);
+    g.prop("loop", 32_000, 400_000, || case(), check_case);
+    g.prop("twin_routes", 8_000, 200_000, || route_case(), check_route);
+    g.prop("builder_then_cli", 800, 10_000, || builder_cli_case(), check_builder_cli);
     g.enumerate(
         "golden",
         |_| {
